@@ -189,6 +189,14 @@ def apply_real(d, op, M):
             return r, Violation("duplicate:same-uuid", "DataSet.duplicate", "the duplicate has the uuid of the original")
         return r, None
     if name == "average":
+        # averaging with ANOTHER data set must leave both inputs as they were (average([d, d]) alone would hide an in-place sum)
+        before = view(d)
+        e = DataSet.duplicate(d)
+        e.subtract_impedances(np.array([1.0 + 1.0j]))
+        before_e = view(e)
+        DataSet.average([d, e])
+        if view(d) != before or view(e) != before_e:
+            return d, Violation("average:input-modified", "DataSet.average", f"DataSet.average([d, e]) changed one of its inputs: {before} -> {view(d)}")
         return DataSet.average([d, d]), None
     if name == "getters":
         for masked in (None, False, True):
@@ -310,7 +318,7 @@ def repro_src(seq, want, frame=False):
         elif name == "duplicate":
             lines.append("d = DataSet.duplicate(d)")
         elif name == "average":
-            lines.append("d = DataSet.average([d, d])")
+            lines.append("b4 = view(d); e = DataSet.duplicate(d); e.subtract_impedances(np.array([1.0 + 1.0j])); DataSet.average([d, e]); assert view(d) == b4, 'average modified its input'; d = DataSet.average([d, d])")
         elif name == "getters":
             lines.append("m = d.get_mask(); m.update({k: not v for k, v in m.items()}); m[99] = True")
             lines.append("for b in (False, True):\n    z = d.get_impedances(masked=b)\n    if len(z): z[0] = 12345.0")
